@@ -95,6 +95,26 @@ BRANCHES = {
     "HalmosBool": {"as_z3": 1, "value": 2, "is_zero": 2, "is_non_zero": 0, "eq": 0, "neg": 0, "bitwise_not": 0,
                    "bitwise_and": 4, "bitwise_or": 4, "bitwise_xor": 4, "as_bv": 4},
 }
+# the HalmosBool constructor as modelled (hb_new / hb_init in Model/BitVecModel.v), statement by
+# statement; only the presence of the singleton guard at the top of __init__ is regenerated
+HB_NEW = [
+    "type_value = type(value)",
+    "if type_value is bool:\n    return TRUE if value else FALSE",
+    "if type_value is HalmosBool:\n    return value",
+    "if type_value is HalmosBitVec:\n    return value.is_non_zero()",
+    "if type_value is BoolRef:\n    if do_simplify:\n        value = simplify(value)\n    if is_true(value):\n        return TRUE\n    if is_false(value):\n        return FALSE",
+    "return super().__new__(cls)",
+]
+HB_INIT_GUARD = "if self is TRUE or self is FALSE:\n    return"
+HB_INIT = [
+    "match value:\n    case bool():\n        self.con_val = value\n        self.sym_val = None\n    case BoolRef():\n        simplified = simplify(value) if do_simplify else value\n        self.sym_val = simplified\n        self.con_val = None\n    case str():\n        self.sym_val = Bool(value)\n        self.con_val = None\n    case HalmosBool():\n        return\n    case HalmosBitVec():\n        return\n    case _:\n        raise TypeError(f'Cannot create HalmosBool from {type(value)}')",
+    "assert self.con_val is None or self.sym_val is None",
+    "assert self.con_val is not None or self.sym_val is not None",
+]
+HB_SINGLETONS = [
+    "TRUE = object.__new__(HalmosBool)", "FALSE = object.__new__(HalmosBool)",
+    "TRUE.con_val = True", "TRUE.sym_val = None", "FALSE.con_val = False", "FALSE.sym_val = None",
+]
 CMP_OK = (ast.Eq, ast.Lt, ast.LtE, ast.Gt, ast.GtE)
 
 
@@ -312,6 +332,29 @@ def translate(src_text):
     lines.append(_emit("to_signed", ["x", "bit_size"], f"let {local} := {e1} in {e2}", "Z"))
     info["to_signed"] = [ast.unparse(body[0]), ast.unparse(body[1])]
     lines.append("")
+
+    # ---- HalmosBool constructor (__new__ + __init__) and the TRUE / FALSE singletons
+    new = find_function(tree, "__new__", cls="HalmosBool")
+    got = [ast.unparse(s) for s in strip_docstring(new.body)]
+    if got != HB_NEW:
+        raise TranslateError("HalmosBool.__new__: body differs from the modelled shape:\n" + "\n".join(got))
+    init = find_function(tree, "__init__", cls="HalmosBool")
+    got = [ast.unparse(s) for s in strip_docstring(init.body)]
+    guarded = bool(got) and got[0] == HB_INIT_GUARD
+    if (got[1:] if guarded else got) != HB_INIT:
+        raise TranslateError("HalmosBool.__init__: body differs from the modelled shape:\n" + "\n".join(got))
+    nz = find_function(tree, "is_non_zero", cls="HalmosBitVec")
+    if [ast.unparse(s) for s in strip_docstring(nz.body)] != ["return HalmosBool(self._value != 0)"]:
+        raise TranslateError("HalmosBitVec.is_non_zero: body differs from the modelled shape")
+    singles = [ast.unparse(s) for s in tree.body if isinstance(s, ast.Assign)
+               and ast.unparse(s.targets[0]).split(".")[0] in ("TRUE", "FALSE")]
+    if singles != HB_SINGLETONS:
+        raise TranslateError(f"TRUE / FALSE: definitions differ from the modelled shape: {singles}")
+    lines.append("(* HalmosBool.__init__ starts with `if self is TRUE or self is FALSE: return`"
+                 + ("" if guarded else " -- NOT FOUND") + " *)")
+    lines.append(f"Definition hb_init_guards_singletons : bool := {'true' if guarded else 'false'}.")
+    lines.append("")
+    info["hb_init_guarded"] = guarded
 
     # ---- branch structure
     info["branches"] = {}
